@@ -11,7 +11,7 @@ use tree_sitter::{ParseOptions, Parser, Point, Range, Tree};
 pub fn meta(tier: &str) -> CheckMeta {
     CheckMeta {
         id: "C09", level: "model_checking",
-        rule: "E-box/E-sched over environment answers, reference = whole-buffer parse by a fresh parser. (i) chunkings: every one of the 2^(n-1) split sets for documents <= 12 (thorough 14) bytes, every single and pair of split points up to 40 (thorough 64) bytes, fixed chunk sizes 1..8 on big documents (splits inside multi-byte characters included; a request at a character start always yields the whole character, which is what the runtime's re-request mechanism requires); (ii) UTF-16LE/BE vs UTF-8 under the code-unit offset map, crossed with unit chunkings (also between surrogates); (iii) BFS depth 3 over prior parser histories {parse other doc, other language, ranges set+cleared, cancelled parse + reset, logger on, logger off}; (iv) cancellation at every progress-callback index (deviation 1) and every pair (deviation 2) followed by resume, and cancel + reset + other document, for fresh parses and for re-parses with an edited old tree. Non-trivial = run whose environment answers actually deviated (>=1 split inside the text / >=1 cancellation / non-empty history).",
+        rule: "E-box/E-sched over environment answers, reference = whole-buffer parse by a fresh parser. (i) chunkings: every one of the 2^(n-1) split sets for documents <= 12 (thorough 14) bytes, and for documents <= 4 (thorough 7) bytes every split set crossed with every list of <= 2 included ranges over all byte positions (reference = whole-buffer parse with the same ranges), every single and pair of split points up to 40 (thorough 64) bytes, fixed chunk sizes 1..8 on big documents (splits inside multi-byte characters included; a request at a character start always yields the whole character, which is what the runtime's re-request mechanism requires); (ii) UTF-16LE/BE vs UTF-8 under the code-unit offset map, crossed with unit chunkings (also between surrogates); (iii) BFS depth 3 over prior parser histories {parse other doc, other language, ranges set+cleared, cancelled parse + reset, logger on, logger off}; (iv) cancellation at every progress-callback index (deviation 1) and every pair (deviation 2) followed by resume, and cancel + reset + other document, for fresh parses and for re-parses with an edited old tree. Non-trivial = run whose environment answers actually deviated (>=1 split inside the text / >=1 cancellation / non-empty history).",
         assumptions: vec!["the progress callback fires once per 100 parser operations; cancellation points are therefore every 100th operation".into()],
         exhaustive: true,
         bounds: json!({"tier": tier, "all_chunkings_up_to_bytes": if tier == "quick" { 12 } else { 14 }, "split_pairs_up_to_bytes": if tier == "quick" { 48 } else { 64 }, "history_depth": 3, "cancel_deviations": 2}),
@@ -49,6 +49,41 @@ fn same(a: &XTree, b: &XTree) -> Option<String> {
     if let Some(d) = a.diff_visible(b) { return Some(d); }
     for i in 0..a.nodes.len() { if a.nodes[i].has_error != b.nodes[i].has_error { return Some(format!("node #{} has_error differs", i)); } }
     None
+}
+
+// ---------------------------------------------------------------- (i') chunkings crossed with included ranges
+/// For short documents: every list of <= 2 included ranges over all byte positions x every chunking of the read callback.
+/// Reference = whole-buffer parse with the same ranges. (The lexer drops and re-requests its chunk whenever it moves to another
+/// range, so range seams and chunk boundaries interact.) Range lists whose boundary cuts a multi-byte character are left
+/// to C13, where that is a recorded finding.
+fn part_chunkings_with_ranges(ctx: &Ctx, info: &LangInfo, docs: &[Vec<u8>], idx: &mut usize, res: &mut ShardResult) {
+    let maxlen = if ctx.mini() { 3 } else if ctx.quick() { 4 } else { 7 };
+    let mut parser = Parser::new();
+    parser.set_language(&info.language).unwrap();
+    for d in docs.iter().filter(|d| d.len() >= 2 && d.len() <= maxlen) {
+        *idx += 1;
+        if !ctx.mine(*idx) { continue; }
+        let n = d.len();
+        let char_ok = |b: usize| match std::str::from_utf8(d) { Ok(st) => b >= n || st.is_char_boundary(b), Err(_) => true };
+        for rl in crate::hist::range_lists_for(n, 2) {
+            if rl.is_empty() || rl.iter().any(|&(s, e)| (s <= n && !char_ok(s)) || (e <= n && !char_ok(e))) { continue; }
+            let rs: Vec<Range> = rl.iter().map(|&(s, e)| crate::checks::c13::mk_range(d, s, e)).collect();
+            parser.set_included_ranges(&rs).unwrap();
+            let refx = XTree::build(&parser.parse(d, None).unwrap());
+            for mask in 1u32..(1u32 << (n - 1)) {
+                let splits: Vec<usize> = (1..n).filter(|p| mask & (1 << (p - 1)) != 0).collect();
+                crate::case!("{}", case_json("chunking-ranges", &info.name, d, json!({"splits": splits, "ranges": rl})));
+                res.transitions += 1;
+                res.nontrivial += 1;
+                let t = parse_with_splits(&mut parser, d, &splits, None).unwrap();
+                if let Some(m) = same(&XTree::build(&t), &refx) { res.violation("chunking-changes-tree-with-ranges", format!("ranges {:?} splits {:?}: {}", rl, splits, m), case_json("chunking-ranges", &info.name, d, json!({"splits": splits, "ranges": rl}))); }
+            }
+            if res.too_many() { break; }
+        }
+        parser.set_included_ranges(&[]).unwrap();
+        res.states += 1;
+        if res.too_many() || ctx.out_of_time() { return; }
+    }
 }
 
 // ---------------------------------------------------------------- (i) chunkings
@@ -365,6 +400,7 @@ pub fn worker(ctx: &Ctx, res: &mut ShardResult) {
         let docs = crate::docs::docs(z, k);
         let big = big_docs(z.name);
         part_chunkings(ctx, &info, &docs, &big, &mut idx, res);
+        part_chunkings_with_ranges(ctx, &info, &docs, &mut idx, res);
         part_encodings(ctx, &info, &docs, &mut idx, res);
         let other_doc = z.seeds.iter().filter(|s| s.len() > 3).next().map(|s| s.as_bytes().to_vec()).unwrap_or_default();
         part_cancellation(ctx, &info, &big, &other_doc, &mut idx, res);
@@ -414,6 +450,16 @@ utf8:    {}", enc, t.root_node().to_sexp(), refx.sexp(&info.language));
             let x16 = XTree::build(&t);
             for i in 0..x16.nodes.len() { println!("  {}", x16.brief(i)); }
             if x16.nodes.len() != refx.nodes.len() { vec!["node count differs".into()] } else { vec![] }
+        }
+        "chunking-ranges" => {
+            let splits: Vec<usize> = x["splits"].as_array().unwrap().iter().map(|v| v.as_u64().unwrap() as usize).collect();
+            let rl: Vec<(usize, usize)> = x["ranges"].as_array().unwrap().iter().map(|r| (r[0].as_u64().unwrap() as usize, r[1].as_u64().unwrap() as usize)).collect();
+            let rs: Vec<Range> = rl.iter().map(|&(s, e)| crate::checks::c13::mk_range(&d, s, e)).collect();
+            p.set_included_ranges(&rs).unwrap();
+            let whole = XTree::build(&p.parse(&d, None).unwrap());
+            let t = parse_with_splits(&mut p, &d, &splits, None).unwrap();
+            println!("ranges {:?}\nchunked {:?}: {}\nwhole:   {}", rl, splits, XTree::build(&t).sexp_pos(&info.language), whole.sexp_pos(&info.language));
+            same(&XTree::build(&t), &whole).into_iter().map(|m| format!("chunking-changes-tree-with-ranges: {}", m)).collect()
         }
         "partition" => {
             let sp = x["splits"][0].as_u64().unwrap_or(0) as usize;
